@@ -129,29 +129,28 @@ fn check_for_boolean_directive(
             continue;
         }
 
-        match line_comment_extractor.captures(line)
+        /*
+         * A line can hold more than one comment: look at each of them.
+         */
+        for capture in line_comment_extractor.captures_iter(line)
         {
-            None => break,
-            Some(capture) =>
+            for group in capture.iter()
             {
-                for group in capture.iter()
+                match group
                 {
-                    match group
+                    None => continue,
+                    Some(comment) =>
                     {
-                        None => continue,
-                        Some(comment) =>
+                        if comment.as_str().to_lowercase().trim() == directive_name
                         {
-                            if comment.as_str().to_lowercase().trim() == directive_name
-                            {
-                                return true;
-                            }
-                        },
-                    }
+                            return true;
+                        }
+                    },
                 }
-
-                break;
-            },
+            }
         }
+
+        break;
     }
 
     false
